@@ -15,7 +15,7 @@ SILENT_FOR = {
  "S40": ["C15"], "S41": ["C04","C08","C02"], "S43": ["C11"], "S44": ["C09","C08","C10"], "S45": ["C06","C08"],
  "S46": ["C04","C02","C08"], "S47": ["C10","C09"], "S48": ["C15"], "S49": ["C18","C08"], "S50": ["C20"],
  "S51": ["C04","C02"], "S52": ["C16","C04"], "S53": ["C05","C02","C08"], "S54": ["C14","C08"],
- "S55": ["C05","C06"], "S56": ["C17","C19"], "S57": ["C11"], "S58": ["C11"], "S59": ["C14","C08"], "S60": ["C19","C08"], "S61": ["C04","C08"], "S62": ["C11"], "S63": ["C10","C09"], "S64": ["C20","C07"],
+ "S55": ["C05","C06"], "S56": ["C17","C19"], "S57": ["C11"], "S58": ["C11"], "S59": ["C14","C08"], "S60": ["C19","C08"], "S61": ["C04","C08"], "S62": ["C11"], "S63": ["C10","C09"], "S64": ["C20","C07"], "S65": ["C10","C02"],
 }
 fire = {}
 for line in open(sys.argv[1]):
